@@ -227,6 +227,7 @@ static KV genCase()
         s.threads    = rpick({2, 3, 4});
         s.R0         = s.Rmax * rpick({1e-3, 1e-2, 0.1}); // keeps the fixed-point bound meaningful on 257 radial nodes
     }
+    s.via_cli = rint(0, 1);
     s.put(c);
     c.putI("cycle", rint(0, 2));
     c.putI("extrap", rint(0, 1));
